@@ -1,5 +1,5 @@
 (* C14: the configured limits are enforced exactly. *)
-From CE Require Import Model.Rules Model.RulesSpec Proofs.RulesInvariants.
+From CE Require Import Model.Rules Model.RulesSpec Proofs.RulesInvariants Proofs.RulesStructure.
 From Coq Require Import ZifyN ZifyNat ZifyBool.
 Open Scope N_scope.
 
